@@ -169,4 +169,88 @@ theorem C15_do_edges (s : BNState) (vs : List Var) (hv : vs.all s.nodes.contains
 
 example : (BNState.init.run [.addEdge 0 1, .addEdge 1 2, .addEdge 2 0]).edges = [(0, 1), (1, 2)] := by decide
 
+/-- bookkeeping invariant: the node list, the edge list and the latent list hold no entry twice
+    (a `DiGraph` has no parallel edges) and every latent variable is a node of the graph -/
+def BNState.Book (s : BNState) : Prop :=
+  s.nodes.Nodup ∧ s.edges.Nodup ∧ s.latents.Nodup ∧ ∀ v ∈ s.latents, v ∈ s.nodes
+
+theorem nodup_addIfAbsent (l : List Var) (v : Var) (h : l.Nodup) : (addIfAbsent l v).Nodup := by
+  unfold addIfAbsent
+  split
+  · exact h
+  · next hc =>
+    have hv : v ∉ l := by simpa using hc
+    exact List.nodup_append.mpr ⟨h, (by simp), by
+      intro a ha b hb
+      have : b = v := by simpa using hb
+      subst this
+      intro e; subst e; exact hv ha⟩
+
+theorem C15_step_book (s : BNState) (op : BNOp) (h : s.Book) : (s.step op).1.Book := by
+  obtain ⟨hn, he, hl, hsub⟩ := h
+  cases op with
+  | addNode v l =>
+    simp only [step]
+    refine ⟨nodup_addIfAbsent _ _ hn, he, ?_, ?_⟩
+    · split
+      · exact nodup_addIfAbsent _ _ hl
+      · exact hl
+    · intro w hw
+      split at hw
+      · rcases (mem_addIfAbsent _ _ _).mp hw with hw | hw
+        · exact (mem_addIfAbsent _ _ _).mpr (Or.inl (hsub w hw))
+        · exact (mem_addIfAbsent _ _ _).mpr (Or.inr hw)
+      · exact (mem_addIfAbsent _ _ _).mpr (Or.inl (hsub w hw))
+  | addEdge u v =>
+    simp only [step]
+    split
+    · exact ⟨hn, he, hl, hsub⟩
+    · split
+      · exact ⟨hn, he, hl, hsub⟩
+      · refine ⟨nodup_addIfAbsent _ _ (nodup_addIfAbsent _ _ hn), ?_, hl, ?_⟩
+        · split
+          · exact he
+          · next hc =>
+            have hv : (u, v) ∉ s.edges := by simpa using hc
+            exact List.nodup_append.mpr ⟨he, (by simp), by
+              intro a ha b hb
+              have : b = (u, v) := by simpa using hb
+              subst this
+              intro e; subst e; exact hv ha⟩
+        · intro w hw
+          exact (mem_addIfAbsent _ _ _).mpr (Or.inl ((mem_addIfAbsent _ _ _).mpr (Or.inl (hsub w hw))))
+  | removeNode v =>
+    simp only [step]
+    split
+    · exact ⟨hn, he, hl, hsub⟩
+    · refine ⟨hn.filter _, he.filter _, hl.filter _, ?_⟩
+      intro w hw
+      obtain ⟨h1, h2⟩ := List.mem_filter.mp hw
+      exact List.mem_filter.mpr ⟨hsub w h1, h2⟩
+  | addCpd f =>
+    simp only [step]
+    split
+    · split <;> exact ⟨hn, he, hl, hsub⟩
+    · exact ⟨hn, he, hl, hsub⟩
+  | removeCpd v =>
+    simp only [step]
+    split <;> exact ⟨hn, he, hl, hsub⟩
+  | doOp vs =>
+    simp only [step]
+    split
+    · exact ⟨hn, he.filter _, hl, hsub⟩
+    · exact ⟨hn, he, hl, hsub⟩
+
+/-- **after any history** no node, edge or latent is held twice and every latent variable is still a
+    node: `remove_node` takes the variable out of `latents` too, and nothing else can separate them -/
+theorem C15_bookkeeping (ops : List BNOp) : (BNState.init.run ops).Book := by
+  have : ∀ (ops : List BNOp) (s : BNState), s.Book → (s.run ops).Book := by
+    intro ops
+    induction ops with
+    | nil => intro s h; exact h
+    | cons op ops ih => intro s h; exact ih _ (C15_step_book s op h)
+  exact this ops BNState.init ⟨List.nodup_nil, List.nodup_nil, List.nodup_nil, fun v hv => by cases hv⟩
+
+example : (BNState.init.run [.addNode 3 true, .addEdge 3 1, .removeNode 3]).latents = [] := by decide
+
 end PgmVerif
